@@ -29,8 +29,8 @@ from detsim.sched import HarnessError, Scheduler
 
 PROP = "C17"
 LEVEL = "exploration"
-RUNS = {"quick": 1000, "thorough": 30000}
-BUDGET_S = {"quick": 75, "thorough": 1200}
+RUNS = {"quick": 1200, "thorough": 40000}
+BUDGET_S = {"quick": 90, "thorough": 1500}
 FRESH_EVERY = {"quick": 20, "thorough": 12}
 RULE = ("each evaluation is one simulated run: a corpus of 3-8 texts, 1-4 caller threads with "
         "1-6 parse operations each, one seeded schedule and one fault sub-batch. Distinct = "
